@@ -1,6 +1,328 @@
-//! C38 — not built yet.
-use vcommon::Args;
+//! C38 — transport failures end pending work with errors, never hangs.
+//!
+//! Fault enumeration: one scripted session (2 pending calls, a rule stream, the unfiltered
+//! stream, inbound [signal, reply to call 0, signal], outbound [call 0, call 1, signal]) × fault
+//! ∈ {EOF, EIO} at EVERY byte offset of the inbound stream, and EIO at EVERY sendmsg call index;
+//! around each fault the schedule is explored with a deviation bound.
 
-pub fn main(_args: &Args) -> i32 {
-    vcommon::machinery_failure("C38: check not built yet")
+use std::{io::ErrorKind, sync::Mutex};
+
+use futures_lite::StreamExt;
+use serde_json::json;
+use vcommon::{Args, Report};
+use zbus::{connection::Builder, MatchRule, Message, MessageStream};
+
+use crate::{
+    explore::ExecResult,
+    sched::{finish_model_checking, run_scenario, v, SchedPlan, Totals},
+    world::{parse_message, split_messages, Link, SockCfg, Step, World, GUID},
+};
+
+#[derive(Clone, Copy, Debug)]
+enum Fault {
+    ReadEof(usize),
+    ReadErr(usize),
+    WriteErr(usize),
+}
+
+fn sig(member: &str, n: u32) -> Message {
+    Message::signal("/p", "a.b", member).unwrap().build(&(n,)).unwrap()
+}
+
+fn scenario(fault: Fault) -> ExecResult {
+    let mut w = World::new();
+    w.horizon = 500;
+    let link = Link::new();
+    let sock = link.end_a(SockCfg::default());
+    let conn = w
+        .complete("build", async move {
+            Builder::authenticated_socket(sock, GUID)
+                .unwrap()
+                .p2p()
+                .internal_executor(false)
+                .build()
+                .await
+                .unwrap()
+        })
+        .expect("build");
+    if let Fault::WriteErr(j) = fault {
+        link.a2b.with(|c| c.write_fault = Some((j, ErrorKind::Other)));
+    }
+    // streams
+    let c2 = conn.clone();
+    let streams = w
+        .complete("streams", async move {
+            let rule = MatchRule::builder()
+                .msg_type(zbus::message::Type::Signal)
+                .interface("a.b")
+                .unwrap()
+                .build();
+            let rs = MessageStream::for_match_rule(rule, &c2, None).await;
+            let us = MessageStream::from(&c2);
+            (rs, us)
+        })
+        .expect("streams");
+    let (rs, us) = streams;
+    let rs = rs.expect("rule stream before any fault");
+    let consume = |mut s: MessageStream| async move {
+        let mut items: Vec<Result<String, String>> = vec![];
+        while let Some(it) = s.next().await {
+            items.push(match it {
+                Ok(m) => Ok(m.header().member().map(|m| m.to_string()).unwrap_or_else(|| format!("{:?}", m.message_type()))),
+                Err(e) => Err(e.to_string()),
+            });
+            if items.len() > 32 {
+                break;
+            }
+        }
+        items
+    };
+    let rule_consumer = w.spawn("rule-consumer", consume(rs));
+    let unf_consumer = w.spawn("unfiltered-consumer", consume(us));
+    let mut callers = vec![];
+    for i in 0..2 {
+        let c = conn.clone();
+        callers.push(w.spawn(&format!("caller{i}"), async move {
+            c.call_method(None::<&str>, "/p", Some("a.b"), format!("M{i}").as_str(), &())
+                .await
+                .map(|m| m.header().reply_serial().map(|s| s.get()))
+                .map_err(|e| e.to_string())
+        }));
+    }
+    let c3 = conn.clone();
+    let emitter = w.spawn("emitter", async move {
+        c3.emit_signal(None::<&str>, "/p", "a.b", "Out", &(1u32,)).await.map_err(|e| e.to_string())
+    });
+
+    let mut injected = false;
+    let mut read_killed_after_write_fault = false;
+    let mut complete_inbound: Vec<&'static str> = vec![];
+    let mut reply0_complete = false;
+    let mut call0_serial = None;
+    loop {
+        if !read_killed_after_write_fault && link.a2b.with(|c| c.write_broken.is_some()) {
+            // the socket is dead in both directions
+            read_killed_after_write_fault = true;
+            link.b2a.set_read_err(ErrorKind::Other);
+            w.obs("write fault hit; socket dead");
+        }
+        let env = match fault {
+            Fault::WriteErr(_) => 0,
+            _ => (!injected) as usize,
+        };
+        match w.step(env) {
+            Step::Ran(_) => {}
+            Step::Env(_) => {
+                injected = true;
+                // what has the connection sent so far?
+                let out = link.a2b.written();
+                let (msgs, _) = split_messages(&out);
+                for r in msgs {
+                    if let Ok(m) = parse_message(&out[r]) {
+                        if m.header().member().map(|m| m.as_str() == "M0").unwrap_or(false) {
+                            call0_serial = Some(m.primary_header().serial_num().get());
+                        }
+                    }
+                }
+                let mut parts: Vec<(&'static str, Vec<u8>)> = vec![("S1", sig("S1", 1).data().bytes().to_vec())];
+                if let Some(s) = call0_serial {
+                    let call = Message::method_call("/p", "M0").unwrap().build(&()).unwrap();
+                    let mut b = call.data().bytes().to_vec();
+                    b[8..12].copy_from_slice(&s.to_le_bytes());
+                    let call = parse_message(&b).unwrap();
+                    parts.push(("reply0", Message::method_return(&call.header()).unwrap().build(&(5u32,)).unwrap().data().bytes().to_vec()));
+                }
+                parts.push(("S2", sig("S2", 2).data().bytes().to_vec()));
+                let stream: Vec<u8> = parts.iter().flat_map(|p| p.1.clone()).collect();
+                let (k, eof) = match fault {
+                    Fault::ReadEof(k) => (k, true),
+                    Fault::ReadErr(k) => (k, false),
+                    _ => unreachable!(),
+                };
+                let k = k.min(stream.len());
+                let mut end = 0;
+                for (name, b) in &parts {
+                    end += b.len();
+                    if end <= k {
+                        complete_inbound.push(name);
+                        if *name == "reply0" {
+                            reply0_complete = true;
+                        }
+                    }
+                }
+                link.b2a.push(&stream[..k], vec![]);
+                if eof {
+                    link.b2a.set_eof();
+                } else {
+                    link.b2a.set_read_err(ErrorKind::Other);
+                }
+                w.obs(format!("fault after {k} inbound bytes; complete: {complete_inbound:?}"));
+            }
+            _ => break,
+        }
+    }
+    let mut res = ExecResult {
+        capped: w.hit_horizon,
+        steps: w.steps,
+        ..Default::default()
+    };
+    let failed = injected || read_killed_after_write_fault;
+    let fk = match fault {
+        Fault::ReadEof(_) => "read-eof",
+        Fault::ReadErr(_) => "read-error",
+        Fault::WriteErr(_) => "write-error",
+    };
+    if failed && !w.hit_horizon {
+        for (i, c) in callers.iter().enumerate() {
+            match c.take() {
+                None => res.violations.push(
+                    v("pending-calls-complete-with-error", format!("caller{i} is still pending after the transport failed ({fault:?}) and nothing is runnable; trace={:?}", w.trace))
+                        .feat("fault", fk)
+                        .feat("what", "call-hangs"),
+                ),
+                Some(Ok(rs)) => {
+                    if !(i == 0 && reply0_complete) {
+                        res.violations.push(
+                            v("pending-calls-complete-with-error", format!("caller{i} completed successfully ({rs:?}) although its reply was not completely received before the failure ({fault:?})"))
+                                .feat("fault", fk)
+                                .feat("what", "call-succeeds"),
+                        );
+                    }
+                    w.obs(format!("caller{i}: ok"));
+                }
+                Some(Err(_)) => {
+                    // The property demands an error for calls whose reply did not arrive; a call
+                    // whose reply DID arrive completely must not be lost.
+                    if i == 0 && reply0_complete {
+                        res.violations.push(
+                            v("messages-before-failure-delivered", format!("caller0's reply was completely received before the failure ({fault:?}) but the call failed"))
+                                .feat("fault", fk)
+                                .feat("what", "reply-lost"),
+                        );
+                    }
+                    w.obs(format!("caller{i}: error"));
+                }
+            }
+        }
+        match emitter.take() {
+            None => res.violations.push(
+                v("no-hang", format!("emit_signal never completed after the transport failed ({fault:?}); trace={:?}", w.trace))
+                    .feat("fault", fk)
+                    .feat("what", "emit-hangs"),
+            ),
+            Some(_) => {}
+        }
+        for (name, h, want) in [
+            (
+                "rule",
+                &rule_consumer,
+                complete_inbound.iter().filter(|n| n.starts_with('S')).map(|s| s.to_string()).collect::<Vec<_>>(),
+            ),
+            (
+                "unfiltered",
+                &unf_consumer,
+                complete_inbound.iter().map(|s| if *s == "reply0" { "MethodReturn".to_string() } else { s.to_string() }).collect::<Vec<_>>(),
+            ),
+        ] {
+            match h.take() {
+                None => res.violations.push(
+                    v("streams-end-after-failure", format!("the {name} stream never ended after the transport failed ({fault:?}); trace={:?}", w.trace))
+                        .feat("fault", fk)
+                        .feat("what", "stream-never-ends"),
+                ),
+                Some(items) => {
+                    let oks: Vec<String> = items.iter().filter_map(|i| i.clone().ok()).collect();
+                    w.obs(format!("{name} stream: {items:?}"));
+                    if oks != want {
+                        res.violations.push(
+                            v("messages-before-failure-delivered", format!("the {name} stream yielded {oks:?}; completely received before the failure: {want:?} ({fault:?})"))
+                                .feat("fault", fk)
+                                .feat("what", "stream-content"),
+                        );
+                    }
+                }
+            }
+        }
+        // later work fails promptly
+        let c4 = conn.clone();
+        let late_call = w.spawn("late-call", async move {
+            c4.call_method(None::<&str>, "/p", Some("a.b"), "Late", &()).await.map(|_| ()).map_err(|e| e.to_string())
+        });
+        let c5 = conn.clone();
+        let late_sub = w.spawn("late-subscribe", async move {
+            let rule = MatchRule::builder().msg_type(zbus::message::Type::Signal).interface("x.y").unwrap().build();
+            MessageStream::for_match_rule(rule, &c5, None).await.map(|_| ()).map_err(|e| e.to_string())
+        });
+        loop {
+            match w.step(0) {
+                Step::Ran(_) => {}
+                _ => break,
+            }
+        }
+        match late_call.take() {
+            None => res.violations.push(
+                v("later-work-fails-promptly", format!("a call issued after the failure ({fault:?}) hangs; trace={:?}", w.trace)).feat("fault", fk).feat("what", "late-call-hangs"),
+            ),
+            Some(Ok(())) => res.violations.push(
+                v("later-work-fails-promptly", format!("a call issued after the failure ({fault:?}) succeeded")).feat("fault", fk).feat("what", "late-call-succeeds"),
+            ),
+            Some(Err(_)) => {}
+        }
+        match late_sub.take() {
+            None => res.violations.push(
+                v("later-work-fails-promptly", format!("a subscription made after the failure ({fault:?}) hangs; trace={:?}", w.trace)).feat("fault", fk).feat("what", "late-subscribe-hangs"),
+            ),
+            Some(Ok(())) => res.violations.push(
+                v("later-work-fails-promptly", format!("a subscription made after the failure ({fault:?}) succeeded")).feat("fault", fk).feat("what", "late-subscribe-succeeds"),
+            ),
+            Some(Err(_)) => {}
+        }
+    }
+    res.log = std::mem::take(&mut w.log);
+    drop(conn);
+    res
+}
+
+pub fn main(args: &Args) -> i32 {
+    let report = Report::new("C38", args.tier, args.seed, "fault_enumeration");
+    let totals = Mutex::new(Totals::default());
+    let quick = args.tier == vcommon::Tier::Quick;
+    // inbound stream length (with the reply present): measured from the same constructors
+    let inbound_len = {
+        let call = Message::method_call("/p", "M0").unwrap().build(&()).unwrap();
+        sig("S1", 1).data().bytes().len()
+            + Message::method_return(&call.header()).unwrap().build(&(5u32,)).unwrap().data().bytes().len()
+            + sig("S2", 2).data().bytes().len()
+    };
+    let mut faults: Vec<(String, Fault)> = vec![];
+    for k in 0..=inbound_len {
+        faults.push((format!("read-eof@{k}"), Fault::ReadEof(k)));
+        faults.push((format!("read-err@{k}"), Fault::ReadErr(k)));
+    }
+    // sendmsg calls in the fault-free session: 3 messages = 3 calls (+ the late call)
+    for j in 0..4 {
+        faults.push((format!("write-err@call{j}"), Fault::WriteErr(j)));
+    }
+    report.set("fault_points", json!(faults.len()));
+    report.set("inbound_stream_bytes", json!(inbound_len));
+    for (name, f) in faults {
+        let plan = SchedPlan {
+            bounds: if quick { vec![Some(1)] } else { vec![Some(2)] },
+            max_execs: 5_000_000,
+            time_budget_s: args.tier.pick(60.0, 600.0),
+        };
+        report.nontrivial(vcommon::hash64(&name));
+        run_scenario(&report, &totals, &name, json!({"fault": name}), &plan, move || scenario(f));
+    }
+    report.assume("a write error means the socket is dead in both directions (the read side fails right after)");
+    report.assume("interleaving granularity is one task poll; the fault itself is an environment event placed by the explorer");
+    {
+        let t = totals.lock().unwrap();
+        report.set("evaluations", json!(t.execs));
+    }
+    finish_model_checking(
+        &report,
+        &totals,
+        "fault ∈ {EOF, I/O error} at every byte offset of the inbound stream and I/O error at every sendmsg call of one scripted session; around each fault all schedules up to the deviation bound; distinct_nontrivial = distinct observation logs",
+    )
 }
